@@ -214,6 +214,23 @@ theorem nonfixed_only {τ : Type} [LinearOrder τ] (numNodes : Nat) (samples : L
   · simp only [Option.isSome_none, Bool.false_eq_true, false_iff]
     exact fun hm => h (List.idxOf_lt_length_iff.mpr hm)
 
+/-- The same from the flags column: node `u` gets a grid row iff it exists and its `NODE_IS_SAMPLE` bit
+is clear — wherever the samples sit in the node table (first, last, interleaved). -/
+theorem nonfixed_by_flags {τ : Type} [LinearOrder τ] (flags : List Nat) (time : Nat → τ) (u : Nat) :
+    (u ∈ nonfixedOfFlags flags time ↔ u < flags.length ∧ flags.getD u 0 % 2 = 0) ∧
+      ((rowLookup (nonfixedOfFlags flags time) u).isSome ↔ u < flags.length ∧ flags.getD u 0 % 2 = 0) := by
+  have h := nonfixed_only flags.length (sampleIds flags) time u
+  have hs : u < flags.length → (u ∉ sampleIds flags ↔ flags.getD u 0 % 2 = 0) := by
+    intro hu
+    simp only [sampleIds, List.mem_filter, List.mem_range, hu, true_and, beq_iff_eq]
+    omega
+  unfold nonfixedOfFlags
+  constructor
+  · rw [h.1]
+    exact ⟨fun ⟨a, b⟩ => ⟨a, (hs a).mp b⟩, fun ⟨a, b⟩ => ⟨a, (hs a).mpr b⟩⟩
+  · rw [h.2.2]
+    exact ⟨fun ⟨a, b⟩ => ⟨a, (hs a).mp b⟩, fun ⟨a, b⟩ => ⟨a, (hs a).mpr b⟩⟩
+
 /-- Non-fixed nodes are listed by non-decreasing time. -/
 theorem nonfixed_sorted {τ : Type} [LinearOrder τ] (numNodes : Nat) (samples : List Nat) (time : Nat → τ) :
     (nonfixed numNodes samples time).Pairwise (fun a b => time a ≤ time b) := by
